@@ -168,24 +168,26 @@ pub(crate) fn dedupe_props(props: Vec<PropOrSpread>) -> Vec<PropOrSpread> {
                         Some(defined_value)
                             if name == "class" || name == "style" || name.starts_with("on") =>
                         {
-                            if let Expr::Array(ArrayLit { elems, .. }) = &mut **defined_value {
-                                elems.push(Some(ExprOrSpread {
+                            // An array literal is spliced, not nested: Vue's DOM event
+                            // patching only accepts a flat array of listeners.
+                            let incoming = match *value {
+                                Expr::Array(ArrayLit { elems, .. }) => elems,
+                                value => vec![Some(ExprOrSpread {
                                     spread: None,
-                                    expr: value,
-                                }));
+                                    expr: Box::new(value),
+                                })],
+                            };
+                            if let Expr::Array(ArrayLit { elems, .. }) = &mut **defined_value {
+                                elems.extend(incoming);
                             } else {
+                                let mut elems = vec![Some(ExprOrSpread {
+                                    spread: None,
+                                    expr: defined_value.clone(),
+                                })];
+                                elems.extend(incoming);
                                 *defined_value = Box::new(Expr::Array(ArrayLit {
                                     span: DUMMY_SP,
-                                    elems: vec![
-                                        Some(ExprOrSpread {
-                                            spread: None,
-                                            expr: defined_value.clone(),
-                                        }),
-                                        Some(ExprOrSpread {
-                                            spread: None,
-                                            expr: value,
-                                        }),
-                                    ],
+                                    elems,
                                 }));
                             }
                         }
